@@ -6,7 +6,9 @@
 (*        encodings Parse(Dump(Load(text))) has them too and a second      *)
 (*        dump-load round trip changes nothing (same state names); for the *)
 (*        finite-automaton encoding (descriptions of rank <= 1) the same   *)
-(*        modulo the symbols of the nullary start rules.                   *)
+(*        modulo the symbols of the nullary start rules.  "explf" is the   *)
+(*        explicit encoding loading into an alphabet that was COPIED from  *)
+(*        one already holding other symbols.                               *)
 (*  bad : arbitrary text: every parser / loader call either succeeds or    *)
 (*        throws a std::exception (crash, hang and foreign exceptions are  *)
 (*        failures).                                                       *)
@@ -18,6 +20,7 @@ Rng(f) == {f[x] : x \in DOMAIN f}
 Why(b, s) == IF b THEN {} ELSE {s}
 IsStd(o) == o = "ok" \/ (Len(o) >= 4 /\ SubSeq(o, 1, 4) = "std:")
 Encs == {"expl", "bu", "td", "fa"}
+EncsOf(e) == Encs \cup ({"explf"} \cap DOMAIN e.res.enc)
 
 SameRT(x, d) == Rng(x.fin) = Rng(d.fin) /\ Rng(x.trans) = Rng(d.trans)
 \* finite automata: the symbol of a nullary (start) rule is not part of the value
@@ -28,16 +31,21 @@ RtFails(e) ==
       maxRank == IF Rng(d.trans) = {} THEN 0 ELSE CHOOSE n \in {Len(t[2]) : t \in Rng(d.trans)} : \A t \in Rng(d.trans) : Len(t[2]) <= n
   IN Why(e.res.parse.outcome = "ok", "parse-rejects-valid-text")
      \cup (IF e.res.parse.outcome = "ok" THEN Why(SameRT(e.res.parse.desc, d), "parse-roundtrip") ELSE {})
+     \* the serialiser applied to the PARSED description (ranks as the parser stored them) must be readable again
+     \cup (IF e.res.parse.outcome = "ok" /\ "reser" \in DOMAIN e.res.parse
+           THEN Why(e.res.parse.reser.outcome = "ok", "parse-rejects-own-serialisation")
+                \cup (IF e.res.parse.reser.outcome = "ok" THEN Why(SameRT(e.res.parse.reser.desc, d), "serialise-parse-roundtrip") ELSE {})
+           ELSE {})
      \cup UNION {LET r == e.res.enc[k] IN
                  Why(r.outcome = "ok", k \o "-rejects-valid-text")
                  \cup (IF r.outcome = "ok" THEN Why(SameRT(r.d1, d), k \o "-load-dump") \cup Why(SameRT(r.d2, r.d1), k \o "-dump-load-dump") ELSE {})
-                 : k \in {"expl", "bu", "td"}}
+                 : k \in {"expl", "bu", "td"} \cup ({"explf"} \cap DOMAIN e.res.enc)}
      \cup (LET r == e.res.enc["fa"] IN
            IF maxRank > 1 THEN Why(IsStd(r.outcome), "fa-nonstd")
            ELSE Why(r.outcome = "ok", "fa-rejects-valid-text")
                 \cup (IF r.outcome = "ok" THEN Why(FaView(r.d1) = FaView(d), "fa-load-dump") \cup Why(FaView(r.d2) = FaView(r.d1), "fa-dump-load-dump") ELSE {}))
 BadFails(e) ==
-  Why(IsStd(e.res.parse.outcome), "parse-nonstd") \cup UNION {Why(IsStd(e.res.enc[k].outcome), k \o "-nonstd") : k \in Encs}
+  Why(IsStd(e.res.parse.outcome), "parse-nonstd") \cup UNION {Why(IsStd(e.res.enc[k].outcome), k \o "-nonstd") : k \in EncsOf(e)}
 
 Fails(e) ==
   IF e.outcome # "ok" THEN {"outcome:" \o e.outcome}
